@@ -17,8 +17,11 @@ package pathdb
 import (
 	"bytes"
 	"crypto/sha256"
+	"errors"
 	"fmt"
 	"math/big"
+	"os"
+	"path/filepath"
 	"runtime"
 	"sort"
 	"strconv"
@@ -33,7 +36,9 @@ import (
 	"github.com/ethereum/go-ethereum/core/types"
 	"github.com/ethereum/go-ethereum/crypto"
 	"github.com/ethereum/go-ethereum/ethdb"
+	"github.com/ethereum/go-ethereum/ethdb/memorydb"
 	"github.com/ethereum/go-ethereum/internal/verif/mc"
+	"github.com/ethereum/go-ethereum/rlp"
 	"github.com/ethereum/go-ethereum/trie"
 	"github.com/ethereum/go-ethereum/trie/trienode"
 	"github.com/holiman/uint256"
@@ -43,21 +48,26 @@ import (
 // Reference worlds.
 
 const (
-	c22NAcct = 3
+	c22NAcct = 3 // mutable accounts A, B, C
+	c22Salt  = 3 // index of the salt account Z
+	c22NAll  = 4
 	c22NSlot = 2
 )
 
 type c22Acct struct {
-	N uint8           // 0 absent, else nonce 1|2
+	N uint8           // 0 absent, else nonce 1|2 (salt account: number of transitions applied so far)
 	S [c22NSlot]uint8 // slot values, 0 absent
 }
 
-type c22World [c22NAcct]c22Acct
+// c22World is the state of the three mutable accounts plus the salt account Z,
+// whose nonce is bumped by every transition (like a sender account): all roots
+// of one chain are therefore distinct although the roots are the real state roots.
+type c22World [c22NAll]c22Acct
 
 func (w c22World) String() string {
 	var sb strings.Builder
 	for i, a := range w {
-		fmt.Fprintf(&sb, "%c%d", 'A'+i, a.N)
+		fmt.Fprintf(&sb, "%c%d", "ABCZ"[i], a.N)
 		if i < 2 {
 			fmt.Fprintf(&sb, "[%d%d]", a.S[0], a.S[1])
 		}
@@ -65,31 +75,93 @@ func (w c22World) String() string {
 	return sb.String()
 }
 
+// Key sets. "edge": synthetic account hashes (the flat state never checks pre-images) at the
+// edge positions: the smallest non-zero hash, hashes with trailing zero bytes (seek positions are
+// right-trimmed for the key-value iterator) and the maximal hash. "keccak": hashes of real
+// addresses, required where state histories are replayed (rollback), because the history is keyed
+// by address. The explorations run one after the other, the current key set is a package variable.
 var (
-	// account and slot hashes are synthetic (the flat state never checks pre-images): they include the
-	// smallest non-zero hash, a hash with trailing zero bytes (seek positions are right-trimmed for the
-	// key-value iterator) and the maximal hash.
-	c22AcctHash = [c22NAcct]common.Hash{
-		common.HexToHash("0x0000000000000000000000000000000000000000000000000000000000000001"),
-		common.HexToHash("0x8000000000000000000000000000000000000000000000000000000000000000"),
-		common.HexToHash("0xffffffffffffffffffffffffffffffffffffffffffffffffffffffffffffffff"),
-	}
-	c22AcctAddr = [c22NAcct]common.Address{common.HexToAddress("0xa1"), common.HexToAddress("0xb2"), common.HexToAddress("0xc3")}
+	c22KeyKind  int
+	c22AcctHash [c22NAll]common.Hash
+	c22AcctAddr = [c22NAll]common.Address{common.HexToAddress("0xa1"), common.HexToAddress("0xb2"), common.HexToAddress("0xc3"), common.HexToAddress("0x5a17")}
 	c22SlotHash = [c22NSlot]common.Hash{
 		common.HexToHash("0x1000000000000000000000000000000000000000000000000000000000000000"),
 		common.HexToHash("0xfffffffffffffffffffffffffffffffffffffffffffffffffffffffffffffffe"),
 	}
+	c22AcctSeeks []common.Hash
+	c22SlotSeeks = c22Seeks(c22SlotHash[:])
 )
+
+func c22UseKeys(kind int) {
+	c22KeyKind = kind
+	if kind == 0 {
+		c22AcctHash = [c22NAll]common.Hash{
+			common.HexToHash("0x0000000000000000000000000000000000000000000000000000000000000001"),
+			common.HexToHash("0x8000000000000000000000000000000000000000000000000000000000000000"),
+			common.HexToHash("0xffffffffffffffffffffffffffffffffffffffffffffffffffffffffffffffff"),
+			common.HexToHash("0x4000000000000000000000000000000000000000000000000000000000000000"),
+		}
+	} else {
+		for i, a := range c22AcctAddr {
+			c22AcctHash[i] = crypto.Keccak256Hash(a.Bytes())
+		}
+	}
+	c22AcctSeeks = c22Seeks(c22AcctHash[:c22NAcct])
+}
+
+func init() { c22UseKeys(0) }
+
+// c22Storage returns the real storage trie root and the complete node set of a
+// storage content (memoised; built with a fresh in-memory trie).
+type c22Trie struct {
+	root  common.Hash
+	nodes map[string][]byte
+}
+
+var c22StorageMemo sync.Map
+
+func c22BuildTrie(kv []c22Entry, owner common.Hash) c22Trie {
+	tr, err := trie.New(trie.StorageTrieID(types.EmptyRootHash, owner, types.EmptyRootHash), nil)
+	if err != nil {
+		panic(err)
+	}
+	for _, e := range kv {
+		tr.MustUpdate(e.h[:], e.v)
+	}
+	root, set := tr.Commit(false)
+	out := c22Trie{root: root, nodes: map[string][]byte{}}
+	if set != nil {
+		for path, n := range set.Nodes {
+			out.nodes[path] = common.CopyBytes(n.Blob)
+		}
+	}
+	return out
+}
+
+func c22Storage(s [c22NSlot]uint8) c22Trie {
+	if v, ok := c22StorageMemo.Load(s); ok {
+		return v.(c22Trie)
+	}
+	var kv []c22Entry
+	for j, v := range s {
+		if v != 0 {
+			kv = append(kv, c22Entry{c22SlotHash[j], c22SlotBlob(v)})
+		}
+	}
+	t := c22BuildTrie(kv, common.Hash{1})
+	c22StorageMemo.Store(s, t)
+	return t
+}
+
+func c22Account(a c22Acct) types.StateAccount {
+	return types.StateAccount{Nonce: uint64(a.N), Balance: uint256.NewInt(7), Root: c22Storage(a.S).root, CodeHash: types.EmptyCodeHash[:]}
+}
 
 func c22AccountBlob(a c22Acct) []byte {
 	if a.N == 0 {
 		return nil
 	}
-	root := types.EmptyRootHash
-	if a.S != ([c22NSlot]uint8{}) {
-		root = crypto.Keccak256Hash([]byte{0xc2, a.S[0], a.S[1]}) // stands for the storage root: changes with every slot change
-	}
-	return types.SlimAccountRLP(types.StateAccount{Nonce: uint64(a.N), Balance: uint256.NewInt(7), Root: root, CodeHash: types.EmptyCodeHash[:]})
+	return types.SlimAccountRLP(c22Account(a))
 }
 
 func c22SlotBlob(v uint8) []byte {
@@ -125,6 +197,57 @@ func (w c22World) slots(acct int) []c22Entry {
 	sort.Slice(out, func(i, j int) bool { return bytes.Compare(out[i].h[:], out[j].h[:]) < 0 })
 	return out
 }
+
+// c22Data is the real state root and the complete trie node set (account trie
+// and storage tries) of a world under the current key set, built from scratch
+// in memory - never read through the database under test.
+type c22Node struct {
+	owner common.Hash
+	path  string
+}
+
+type c22WD struct {
+	root  common.Hash
+	nodes map[c22Node][]byte
+}
+
+type c22WDKey struct {
+	kind int
+	w    c22World
+}
+
+var c22DataMemo sync.Map
+
+func c22Data(w c22World) *c22WD {
+	key := c22WDKey{c22KeyKind, w}
+	if v, ok := c22DataMemo.Load(key); ok {
+		return v.(*c22WD)
+	}
+	d := &c22WD{nodes: map[c22Node][]byte{}}
+	var kv []c22Entry
+	for i, a := range w {
+		if a.N == 0 {
+			continue
+		}
+		full, err := rlp.EncodeToBytes(func() *types.StateAccount { x := c22Account(a); return &x }())
+		if err != nil {
+			panic(err)
+		}
+		kv = append(kv, c22Entry{c22AcctHash[i], full})
+		for path, blob := range c22Storage(a.S).nodes {
+			d.nodes[c22Node{c22AcctHash[i], path}] = blob
+		}
+	}
+	t := c22BuildTrie(kv, common.Hash{})
+	d.root = t.root
+	for path, blob := range t.nodes {
+		d.nodes[c22Node{common.Hash{}, path}] = blob
+	}
+	c22DataMemo.Store(key, d)
+	return d
+}
+
+func c22Root(w c22World) common.Hash { return c22Data(w).root }
 
 // ---------------------------------------------------------------------------
 // Deltas (one per layer).
@@ -193,18 +316,21 @@ func (d c22Delta) apply(w c22World) (c22World, bool) {
 		}
 		a.S[d.slot] = 0
 	}
+	w[c22Salt].N++
 	return w, true
 }
 
-// c22StateSet is the flat-state diff from world p to world c in the form the
-// state database hands it over: changed accounts (nil = deleted) and changed
-// slots (nil = deleted; a destructed account lists all its former slots).
-func c22StateSet(p, c c22World) *StateSetWithOrigin {
+// c22Transition builds the arguments of Database.Update for the transition
+// from world p to world c: the trie node diff (changed/new nodes, vanished nodes
+// as deletions) and the flat-state diff in the form the state database hands it
+// over: changed accounts (nil = deleted) and changed slots (nil = deleted; a
+// destructed account lists all its former slots), with the original values.
+func c22Transition(p, c c22World) (*trienode.MergedNodeSet, *StateSetWithOrigin) {
 	accounts := map[common.Hash][]byte{}
 	storages := map[common.Hash]map[common.Hash][]byte{}
 	accountOrigin := map[common.Address][]byte{}
 	storageOrigin := map[common.Address]map[common.Hash][]byte{}
-	for i := 0; i < c22NAcct; i++ {
+	for i := 0; i < c22NAll; i++ {
 		pb, cb := c22AccountBlob(p[i]), c22AccountBlob(c[i])
 		if !bytes.Equal(pb, cb) {
 			accounts[c22AcctHash[i]] = cb
@@ -228,7 +354,48 @@ func c22StateSet(p, c c22World) *StateSetWithOrigin {
 			}
 		}
 	}
-	return NewStateSetWithOrigin(accounts, storages, accountOrigin, storageOrigin, false)
+	pd, cd := c22Data(p), c22Data(c)
+	keys := make([]c22Node, 0, len(pd.nodes)+len(cd.nodes))
+	for k := range pd.nodes {
+		keys = append(keys, k)
+	}
+	for k := range cd.nodes {
+		if _, dup := pd.nodes[k]; !dup {
+			keys = append(keys, k)
+		}
+	}
+	sort.Slice(keys, func(i, j int) bool {
+		if x := bytes.Compare(keys[i].owner[:], keys[j].owner[:]); x != 0 {
+			return x < 0
+		}
+		return keys[i].path < keys[j].path
+	})
+	merged := trienode.NewMergedNodeSet()
+	var cur *trienode.NodeSet
+	flush := func() {
+		if cur != nil {
+			if err := merged.Merge(cur); err != nil {
+				panic(err)
+			}
+		}
+	}
+	for _, k := range keys {
+		pb, cb := pd.nodes[k], cd.nodes[k]
+		if bytes.Equal(pb, cb) {
+			continue
+		}
+		if cur == nil || cur.Owner != k.owner {
+			flush()
+			cur = trienode.NewNodeSet(k.owner)
+		}
+		if len(cb) == 0 {
+			cur.AddNode([]byte(k.path), trienode.NewDeletedWithPrev(common.CopyBytes(pb)))
+		} else {
+			cur.AddNode([]byte(k.path), trienode.NewNodeWithPrev(crypto.Keccak256Hash(cb), common.CopyBytes(cb), common.CopyBytes(pb)))
+		}
+	}
+	flush()
+	return merged, NewStateSetWithOrigin(accounts, storages, accountOrigin, storageOrigin, false)
 }
 
 // ---------------------------------------------------------------------------
@@ -260,11 +427,6 @@ func c22Seeks(keys []common.Hash) []common.Hash {
 	return out
 }
 
-var (
-	c22AcctSeeks = c22Seeks(c22AcctHash[:])
-	c22SlotSeeks = c22Seeks(c22SlotHash[:])
-)
-
 func c22From(all []c22Entry, seek common.Hash) []c22Entry {
 	for i, e := range all {
 		if bytes.Compare(e.h[:], seek[:]) >= 0 {
@@ -281,7 +443,7 @@ func c22From(all []c22Entry, seek common.Hash) []c22Entry {
 var c22TrieChecked sync.Map
 
 func c22CheckTrieOrder(w c22World) error {
-	if _, done := c22TrieChecked.LoadOrStore(w, true); done {
+	if _, done := c22TrieChecked.LoadOrStore(c22WDKey{c22KeyKind, w}, true); done {
 		return nil
 	}
 	cmp := func(what string, want []c22Entry, conv func([]byte) []byte) error {
@@ -331,6 +493,8 @@ type c22Cfg struct {
 	Disk    c22World   // world committed to the persistent store before the exploration
 	Preload []c22Delta // deltas then merged into the write buffer (the last one stays a diff layer unless Buffer==0)
 	Gated   bool       // asynchronous flush; the flush started by the explored operation is parked in front of its batch write while all iterators are created
+	Hist    bool       // state histories enabled (in-memory freezer), keccak key set, "rollback" in the alphabet instead of "journal+reopen"
+	JFile   bool       // the journal is written to a file (Config.JournalDirectory) instead of the key-value store
 }
 
 type c22Layer struct {
@@ -339,8 +503,13 @@ type c22Layer struct {
 }
 
 type c22Stack struct {
-	layers []c22Layer // [0] = disk layer, then the diff layers up to the head
-	dead   []c22Layer // roots that were flattened away
+	layers   []c22Layer // [0] = disk layer, then the diff layers up to the head
+	dead     []c22Layer // roots that were flattened away or rolled back
+	diskHist []c22Layer // successive states of the disk layer, the last one is the current disk layer
+}
+
+func (s *c22Stack) clone() *c22Stack {
+	return &c22Stack{layers: append([]c22Layer{}, s.layers...), diskHist: append([]c22Layer{}, s.diskHist...)}
 }
 
 func (s *c22Stack) head() c22Layer { return s.layers[len(s.layers)-1] }
@@ -406,24 +575,63 @@ func (b *c22GateBatch) Write() error {
 
 type c22Inst struct {
 	db       *Database
+	disk     ethdb.Database
+	conf     *Config
+	jdir     string
 	gate     *c22Gate
 	inflight bool // a flush is parked at the gate
 }
 
+var c22DirSeq atomic.Int64
+
 func c22NewInst(cfg c22Cfg) *c22Inst {
 	in := &c22Inst{}
-	var disk ethdb.Database = rawdb.NewMemoryDatabase()
+	if cfg.Hist {
+		d, err := rawdb.Open(memorydb.New(), rawdb.OpenOptions{}) // empty ancient dir => in-memory freezers
+		if err != nil {
+			panic(err)
+		}
+		in.disk = d
+	} else {
+		in.disk = rawdb.NewMemoryDatabase() // no ancient store: no histories, can be re-opened
+	}
 	if cfg.Gated {
 		in.gate = &c22Gate{arrived: make(chan struct{}, 16), hold: make(chan struct{})}
-		disk = &c22GateDB{disk, in.gate}
+		in.disk = &c22GateDB{in.disk, in.gate}
 	}
-	in.db = New(disk, &Config{
+	in.conf = &Config{
 		WriteBufferSize:   cfg.Buffer,
 		TrienodeHistory:   -1,
 		NoAsyncFlush:      !cfg.Gated,
 		NoAsyncGeneration: true,
-	}, false)
+	}
+	if cfg.JFile {
+		base := os.Getenv("VERIF_SCRATCH")
+		if base == "" {
+			base = os.TempDir()
+		}
+		in.jdir = filepath.Join(base, fmt.Sprintf("c22-journal-%d-%d", os.Getpid(), c22DirSeq.Add(1)))
+		in.conf.JournalDirectory = in.jdir
+	}
+	in.db = New(in.disk, in.conf, false)
 	return in
+}
+
+// reopen journals the layers from head, closes the database and opens it
+// again on the same key-value store, the way a node restart does.
+func (in *c22Inst) reopen(head common.Hash, wantLayers int) error {
+	in.settle()
+	if err := in.db.Journal(head); err != nil {
+		return fmt.Errorf("Journal: %v", err)
+	}
+	if err := in.db.Close(); err != nil {
+		return fmt.Errorf("Close: %v", err)
+	}
+	in.db = New(in.disk, in.conf, false)
+	if n := in.db.tree.len(); n != wantLayers {
+		return fmt.Errorf("re-opened database has %d layers, journalled %d", n, wantLayers)
+	}
+	return nil
 }
 
 // settle releases a parked flush and waits for the completion of any flush
@@ -444,11 +652,10 @@ func (in *c22Inst) settle() {
 func (in *c22Inst) close() {
 	in.settle()
 	in.db.Close()
-	in.db.diskdb.Close()
-}
-
-func c22ChildRoot(parent common.Hash, name string) common.Hash {
-	return crypto.Keccak256Hash(parent[:], []byte(name))
+	in.disk.Close()
+	if in.jdir != "" {
+		os.RemoveAll(in.jdir)
+	}
 }
 
 // ---------------------------------------------------------------------------
@@ -580,6 +787,23 @@ func (in *c22Inst) create(j c22Job) (it Iterator, value func() []byte, err error
 	return si, si.Slot, nil
 }
 
+// c22EmptyExtra is the mismatch "the fast (merged) iterator yields exactly the
+// reference entries plus entries with an EMPTY value": a deletion marker that is
+// an empty non-nil slice passed the iterator's `!= nil` liveness test.
+type c22EmptyExtra struct{ msg string }
+
+func (e *c22EmptyExtra) Error() string { return e.msg }
+
+func c22OnlyEmptyExtra(got, want []c22Entry) bool {
+	var live []c22Entry
+	for _, e := range got {
+		if len(e.v) != 0 {
+			live = append(live, e)
+		}
+	}
+	return len(live) != len(got) && c22Equal(live, want)
+}
+
 // consume drains the iterator of a job and compares it with the reference.
 func c22Consume(j c22Job, it Iterator, value func() []byte, when string, st *c22Stats) error {
 	got, err := c22Drain(it, value)
@@ -589,22 +813,35 @@ func c22Consume(j c22Job, it Iterator, value func() []byte, when string, st *c22
 		return fmt.Errorf("%s%v: error %v after %s", when, j, err, c22Fmt(got))
 	}
 	if want := j.want(); !c22Equal(got, want) {
-		return fmt.Errorf("%s%v yields %s, the state has %s", when, j, c22Fmt(got), c22Fmt(want))
+		msg := fmt.Sprintf("%s%v yields %s, the state has %s", when, j, c22Fmt(got), c22Fmt(want))
+		if j.kind == "fast" && c22OnlyEmptyExtra(got, want) {
+			return &c22EmptyExtra{msg}
+		}
+		return errors.New(msg)
 	}
 	return nil
 }
 
+// checkRoot returns the first hard mismatch; a c22EmptyExtra mismatch is only
+// returned if nothing else is wrong on this root (the caller classifies it).
 func (in *c22Inst) checkRoot(l c22Layer, quickTouch bool, st *c22Stats) error {
+	var soft error
 	for _, j := range c22Jobs(l, quickTouch) {
 		it, value, err := in.create(j)
 		if err != nil {
 			return fmt.Errorf("%v: creation failed: %v", j, err)
 		}
 		if err := c22Consume(j, it, value, "", st); err != nil {
-			return err
+			var ee *c22EmptyExtra
+			if !errors.As(err, &ee) {
+				return err
+			}
+			if soft == nil {
+				soft = err
+			}
 		}
 	}
-	return nil
+	return soft
 }
 
 // ---------------------------------------------------------------------------
@@ -754,23 +991,47 @@ func (in *c22Inst) parkedCheck(s *c22Stack, r *mc.R, st *c22Stats, ps *c22ParkSt
 	return first
 }
 
+// tolerated: the known defect class "after Recover with a non-empty write buffer the
+// entries whose original value is 'absent' sit in the buffer as empty non-nil slices and
+// the fast iterator yields them" - only in the history configurations, only for traces
+// that contain a rollback, only for the exact symptom c22EmptyExtra.
+func (s *c22Sys) tolerated(err error, trace []int) bool {
+	var ee *c22EmptyExtra
+	if err == nil || !s.sh.cfg.Hist || !errors.As(err, &ee) {
+		return false
+	}
+	for _, i := range trace {
+		if s.opOf(i) == c22OpRollback {
+			return true
+		}
+	}
+	return false
+}
+
 // check runs the iterators on every live root. After a structural operation (or
 // when allRoots is set) every root gets every seek position; after a new layer
 // was stacked on top only the new head does, the roots below (whose stacks are
 // unchanged and were checked completely when they were the head) are iterated
 // from the zero position only.
 func (in *c22Inst) check(s *c22Stack, quickTouch, allRoots bool, st *c22Stats) error {
+	var soft error
 	for i, l := range s.layers {
 		if err := c22CheckTrieOrder(l.world); err != nil {
 			return err
 		}
 		touch := quickTouch || (!allRoots && i != len(s.layers)-1)
 		if err := in.checkRoot(l, touch, st); err != nil {
-			return err
+			var ee *c22EmptyExtra
+			if !errors.As(err, &ee) {
+				return err
+			}
+			if soft == nil {
+				soft = err
+			}
 		}
 	}
 	if quickTouch {
-		return nil
+		return soft
 	}
 	// roots that were flattened away must not be iterable as anything but themselves
 	for _, l := range s.dead {
@@ -783,7 +1044,7 @@ func (in *c22Inst) check(s *c22Stack, quickTouch, allRoots bool, st *c22Stats) e
 			return fmt.Errorf("account iterator at the flattened root of %v yields %s without error", l.world, c22Fmt(got))
 		}
 	}
-	return nil
+	return soft
 }
 
 // fingerprint: content and sorted-list caches of every layer, write buffer and
@@ -842,7 +1103,13 @@ func (in *c22Inst) fingerprint() string {
 // ---------------------------------------------------------------------------
 // The explored system.
 
+type c22Known struct {
+	ops []string
+	msg string
+}
+
 type c22Shared struct {
+	known  []c22Known
 	r      *mc.R
 	park   c22ParkStats
 	cfg    c22Cfg
@@ -855,8 +1122,10 @@ type c22Shared struct {
 }
 
 const (
-	c22OpMerge  = -1
-	c22OpCommit = -2
+	c22OpMerge    = -1
+	c22OpCommit   = -2
+	c22OpReopen   = -3
+	c22OpRollback = -4
 )
 
 func c22NewShared(r *mc.R, cfg c22Cfg) *c22Shared {
@@ -864,7 +1133,7 @@ func c22NewShared(r *mc.R, cfg c22Cfg) *c22Shared {
 	for _, d := range sh.deltas {
 		sh.names = append(sh.names, d.name)
 	}
-	sh.names = append(sh.names, "merge-bottom-diff", "commit-head")
+	sh.names = append(sh.names, "merge-bottom-diff", "commit-head", "journal+reopen", "rollback-disk-layer")
 	return sh
 }
 
@@ -877,7 +1146,8 @@ type c22Sys struct {
 }
 
 func (sh *c22Shared) initialStack() *c22Stack {
-	return &c22Stack{layers: []c22Layer{{root: types.EmptyRootHash}}}
+	l := c22Layer{root: types.EmptyRootHash}
+	return &c22Stack{layers: []c22Layer{l}, diskHist: []c22Layer{l}}
 }
 
 func (sh *c22Shared) newSys() mc.Sys {
@@ -941,8 +1211,12 @@ func (s *c22Sys) opOf(i int) int {
 		return i
 	case i == len(s.sh.deltas):
 		return c22OpMerge
-	default:
+	case i == len(s.sh.deltas)+1:
 		return c22OpCommit
+	case i == len(s.sh.deltas)+2:
+		return c22OpReopen
+	default:
+		return c22OpRollback
 	}
 }
 
@@ -955,13 +1229,26 @@ func (s *c22Sys) modelStep(st *c22Stack, op int, limit bool) bool {
 		}
 		st.dead = append(st.dead, st.layers[0])
 		st.layers = st.layers[1:]
+		st.diskHist = append(st.diskHist, st.layers[0])
 		return true
 	case c22OpCommit:
 		if len(st.layers) < 2 {
 			return false
 		}
+		st.diskHist = append(st.diskHist, st.layers[1:]...)
 		st.dead = append(st.dead, st.layers[:len(st.layers)-1]...)
 		st.layers = st.layers[len(st.layers)-1:]
+		return true
+	case c22OpReopen:
+		return !s.sh.cfg.Hist // Journal(head) + Close + New: the stack and its worlds do not change
+	case c22OpRollback:
+		// Recover(previous state of the disk layer): all diff layers are dropped, the disk layer steps back
+		if !s.sh.cfg.Hist || len(st.diskHist) < 2 {
+			return false
+		}
+		st.dead = append(st.dead, st.layers...)
+		st.diskHist = st.diskHist[:len(st.diskHist)-1]
+		st.layers = []c22Layer{st.diskHist[len(st.diskHist)-1]}
 		return true
 	}
 	if limit && len(st.layers) > 4 {
@@ -973,7 +1260,7 @@ func (s *c22Sys) modelStep(st *c22Stack, op int, limit bool) bool {
 	if !ok {
 		return false
 	}
-	st.layers = append(st.layers, c22Layer{root: c22ChildRoot(head.root, d.name), world: nw})
+	st.layers = append(st.layers, c22Layer{root: c22Root(nw), world: nw})
 	return true
 }
 
@@ -1029,15 +1316,20 @@ func (s *c22Sys) realOp(st *c22Stack, op int) error {
 		return db.tree.cap(head.root, len(st.layers)-2)
 	case c22OpCommit:
 		return db.Commit(st.head().root, false)
+	case c22OpReopen:
+		return s.in.reopen(st.head().root, len(st.layers))
+	case c22OpRollback:
+		return db.Recover(st.diskHist[len(st.diskHist)-2].root)
 	}
 	head := st.head()
 	d := s.sh.deltas[op]
 	nw, _ := d.apply(head.world)
-	return db.Update(c22ChildRoot(head.root, d.name), head.root, uint64(len(st.layers)), trienode.NewMergedNodeSet(), c22StateSet(head.world, nw))
+	nodes, states := c22Transition(head.world, nw)
+	return db.Update(c22Root(nw), head.root, uint64(nw[c22Salt].N), nodes, states)
 }
 
 func (s *c22Sys) Enabled(i int) bool {
-	probe := &c22Stack{layers: append([]c22Layer{}, s.stack.layers...)}
+	probe := s.stack.clone()
 	if !s.modelStep(probe, s.opOf(i), true) {
 		return false
 	}
@@ -1063,14 +1355,14 @@ func (s *c22Sys) materialise() {
 		s.err = fmt.Errorf("prepared base: %v", err)
 		return
 	}
-	for _, i := range s.trace {
+	for k, i := range s.trace {
 		op := s.opOf(i)
 		if err := s.realStep(st, op, false); err != nil {
 			s.err = fmt.Errorf("replay divergence at prefix op %s: %v", s.sh.names[i], err)
 			return
 		}
 		s.modelStep(st, op, true)
-		if err := s.in.check(st, true, false, &stats); err != nil {
+		if err := s.in.check(st, true, false, &stats); err != nil && !s.tolerated(err, s.trace[:k+1]) {
 			s.err = fmt.Errorf("replay divergence at prefix op %s: %v", s.sh.names[i], err)
 			return
 		}
@@ -1105,7 +1397,17 @@ func (s *c22Sys) Apply(i int) error {
 		err = s.in.check(s.stack, false, op < 0 || len(s.trace) == 1, &st)
 	}
 	sh := s.sh
+	known := s.tolerated(err, s.trace)
 	sh.mu.Lock()
+	if known {
+		names := make([]string, len(s.trace))
+		for k, o := range s.trace {
+			names[k] = sh.names[o]
+		}
+		sh.known = append(sh.known, c22Known{ops: names, msg: err.Error()})
+		sh.counts["fast iterator yields empty-valued entries after a rollback (known defect class)"]++
+		err = nil
+	}
 	sh.park.created += ps.created
 	sh.park.waiting += ps.waiting
 	sh.park.storeIterators += ps.storeIterators
@@ -1117,6 +1419,10 @@ func (s *c22Sys) Apply(i int) error {
 		sh.counts["merge"]++
 	case c22OpCommit:
 		sh.counts["commit"]++
+	case c22OpReopen:
+		sh.counts["journal+reopen"]++
+	case c22OpRollback:
+		sh.counts["rollback"]++
 	default:
 		sh.counts[[]string{"account set", "account destruct", "account destruct+recreate", "slot set", "slot delete"}[sh.deltas[op].kind]]++
 	}
@@ -1159,7 +1465,8 @@ func TestVerif_C22(t *testing.T) {
 		defer func() { maxDiffLayers = old }()
 		maxDiffLayers = 64 // never flatten implicitly: the structural operations do it
 		r.Rule("explicit-state BFS over layer stacks of the real pathdb.Database: one delta per layer out of {account create/modify, destruct, destruct+recreate with fresh storage, slot set, slot delete} " +
-			"over 3 accounts x 2 slots, plus merge-bottom-diff-into-disk-layer and Commit(head), on prepared bases; after every operation every live root is iterated with the fast and the binary " +
+			"over 3 accounts x 2 slots (plus a salt account changed by every transition; real state roots and trie node sets), plus merge-bottom-diff-into-disk-layer, Commit(head), journal+reopen (Database.Journal(head), Close, New on the same store) " +
+			"and - with state histories on - rollback-disk-layer (Recover to the previous disk state), on prepared bases; after every operation every live root is iterated with the fast and the binary " +
 			"account iterator and all storage iterators from every seek position; in the async-parked configurations the flush started by the explored operation is parked in front of its key-value batch write, " +
 			"all iterators of all live roots are requested in that window (each on its own goroutine), the flush is released once every creator has returned or is durably blocked, and all of them are consumed; " +
 			"state key = worlds of the stack + content/list caches of all layers, write buffer and flat store")
@@ -1168,7 +1475,7 @@ func TestVerif_C22(t *testing.T) {
 		r.Bound("account_seek_positions", len(c22AcctSeeks))
 		r.Bound("slot_seek_positions", len(c22SlotSeeks))
 		r.Assume("async-parked: the only concurrency is iterator construction vs. one pending flush, forced deterministically (gate in a wrapper of the key-value store; 'creator blocked' is read from the runtime's goroutine dump, wall-clock only as a hang watchdog that yields a harness error); flushes in prefix replays are awaited through diskLayer.waitFlush")
-		r.Assume("reference = per-root world (sorted existing entries >= seek); its order is cross-checked once per world against the leaf order of a trie built from it; synthetic account/slot hashes and layer roots (flat state and iterators never check pre-images or roots)")
+		r.Assume("reference = per-root world (sorted existing entries >= seek); its order is cross-checked once per world against the leaf order of a trie built from it; synthetic account/slot hashes at edge positions (flat state and iterators never check pre-images); keccak account hashes in the history configurations; roots and trie nodes are the real ones of the reference world, built from fresh in-memory tries")
 		rich := c22World{{N: 1, S: [2]uint8{1, 1}}, {N: 1, S: [2]uint8{0, 1}}, {N: 1}}
 		ds := c22Deltas()
 		pick := func(acct, kind, slot int) c22Delta {
@@ -1182,23 +1489,37 @@ func TestVerif_C22(t *testing.T) {
 		// write buffer content on top of the rich store: A destructed and recreated, slot of B deleted, C destructed;
 		// one more delta (B.s1 set) stays as the bottom diff layer.
 		buffered := []c22Delta{pick(0, 2, 0), pick(1, 4, 1), pick(2, 1, 0), pick(1, 3, 0)}
+		// history configuration: the write buffer holds a slot creation (B.s1), the destruction of C and its re-creation
+		// (entries whose original value is "absent"), A destructed stays as the bottom diff layer.
+		histBuffered := []c22Delta{pick(1, 3, 0), pick(2, 1, 0), pick(2, 0, 0), pick(0, 1, 0)}
 		type plan struct {
 			cfg   c22Cfg
 			depth int
 		}
 		dq := mc.Pick(r, 3, 4)
+		ds2 := mc.Pick(r, 2, 4)
 		plans := []plan{
 			{c22Cfg{Name: "fresh/buf1M", Buffer: 1 << 20}, mc.Pick(r, 3, 5)},
 			// asynchronous flush: the last flush started by the explored operation (a Commit; with write buffer 0 also a
 			// merge) is parked in front of its batch write while all iterators of all live roots are requested
 			{c22Cfg{Name: "store/buf1M/async-parked", Buffer: 1 << 20, Disk: rich, Gated: true}, dq},
 			{c22Cfg{Name: "store+buffer/buf1M", Buffer: 1 << 20, Disk: rich, Preload: buffered}, dq},
-			{c22Cfg{Name: "store/buf0", Buffer: 0, Disk: rich}, mc.Pick(r, 2, 4)},
-			{c22Cfg{Name: "store+diff/buf0/async-parked", Buffer: 0, Disk: rich, Preload: buffered[3:], Gated: true}, mc.Pick(r, 2, 4)},
+			{c22Cfg{Name: "store/buf0", Buffer: 0, Disk: rich}, ds2},
+			{c22Cfg{Name: "store+diff/buf0/async-parked", Buffer: 0, Disk: rich, Preload: buffered[3:], Gated: true}, ds2},
+			// journal written to a file instead of the key-value store
+			{c22Cfg{Name: "store+buffer/buf1M/journal-file", Buffer: 1 << 20, Disk: rich, Preload: buffered, JFile: true}, ds2},
+			// state histories on (keccak key set): "rollback-disk-layer" = Recover(previous disk state) replaces "journal+reopen"
+			{c22Cfg{Name: "store+buffer/buf1M/history", Buffer: 1 << 20, Disk: rich, Preload: histBuffered, Hist: true}, dq},
+			{c22Cfg{Name: "store+diff/buf0/history", Buffer: 0, Disk: rich, Preload: buffered[3:], Hist: true}, ds2},
 		}
 		for _, p := range plans {
 			if r.Expired() {
 				break
+			}
+			if p.cfg.Hist {
+				c22UseKeys(1)
+			} else {
+				c22UseKeys(0)
 			}
 			sh := c22NewShared(r, p.cfg)
 			r.Bound(p.cfg.Name+".depth", p.depth)
@@ -1208,7 +1529,7 @@ func TestVerif_C22(t *testing.T) {
 			}
 			var tr int64
 			for k, v := range sh.counts {
-				if !strings.HasPrefix(k, "flush parked") {
+				if !strings.HasPrefix(k, "flush parked") && !strings.HasPrefix(k, "fast iterator yields") {
 					tr += v
 				}
 			}
@@ -1220,6 +1541,19 @@ func TestVerif_C22(t *testing.T) {
 			r.OutcomeN(p.cfg.Name+"/transitions", tr)
 			r.OutcomeN(p.cfg.Name+"/iterator runs", int64(sh.st.iterators))
 			r.OutcomeN(p.cfg.Name+"/entries yielded", int64(sh.st.entries))
+			if len(sh.known) > 0 {
+				sort.Slice(sh.known, func(i, j int) bool {
+					a, b := sh.known[i].ops, sh.known[j].ops
+					if len(a) != len(b) {
+						return len(a) < len(b)
+					}
+					return strings.Join(a, ";") < strings.Join(b, ";")
+				})
+				k := sh.known[0]
+				r.Violation("C22/fast-iterator-empty-entry-after-rollback/"+p.cfg.Name+":"+strings.Join(k.ops, ";"),
+					fmt.Sprintf("%s (Recover with a non-empty write buffer stored the history's empty non-nil original values of entries that did not exist; %d traces of this class in this exploration)", k.msg, len(sh.known)),
+					map[string]any{"explore": "C22/pathdb/" + p.cfg.Name, "ops": k.ops})
+			}
 			var shapes []string
 			for s := range sh.shapes {
 				shapes = append(shapes, s)
